@@ -271,6 +271,13 @@ theorem T_C06_merged (decl : Decl) :
     (assembleDecl decl).merged = decl.mergedBefore ++ decl.mergedAfter ∧
     (assembleDecl decl).settings = decl.settings := ⟨rfl, rfl, rfl⟩
 
+/-- **T_C06_edge_order / T_C06_vtk_header.** (`decide`, probes of the current source) `EdgeList.add_from_operation` walks
+    the beams in the order and direction the model's `addEdges` assumes; `write_vtk` prints the header words the model's
+    `renderVtk` is given. -/
+theorem T_C06_edge_order : CBV.Gen.c06EdgeOrder = edgeOrder := by decide
+
+theorem T_C06_vtk_header : CBV.Gen.c06VtkHeader = vtkHeader := by decide
+
 /-! ### printed numbers -/
 
 /-- **T_C06_round8.** The integer whose digits `fmt8` prints is a nearest integer to `|q|·10⁸`: the
